@@ -2,13 +2,17 @@
     PROVED: (values only) a warn-mode decode that completes with value warnings only is tiled by its events
     (C02_accepted_input_is_tiled_by_its_events, abort = false); (resume) when a field would cross a live region
     the rest of that region - exactly limit minus counted bytes - is consumed before the problem is reported;
-    (first problem) C07.  NOT PROVED: that warn mode never aborts and that after a recovered overrun every byte is
+    (first problem) C07; (values only, structure types) for EVERY structure type, all tables, all inputs: when the
+    input is structurally consistent, warn-mode decoding emits exactly the events of the lenient field-by-field
+    interpretation with one warning directly after each offending event, and accepts (Proofs/Sim4-5, mode false).
+    NOT PROVED: the values-only clause for the Command / Response / stream roots; that warn mode never aborts and that after a recovered overrun every byte is
     shown, skipped or listed (both were false of the pinned commit, see the fixed entries of known_findings.json);
     decided by the oracle (no escaping exception other than the two allowed ValueConstraintViolatedErrors; tiling
     recomputed from events and warnings) and the model correspondence in warn mode.
     Statement file: theorem statements, [exact], Print Assumptions only. *)
 From Coq Require Import ZArith List String Bool.
-From TV Require Import Layout.Types Model.Monad Model.Constraints Model.Message Model.Pump Proofs.Account Proofs.Tiling Proofs.OpLemmas.
+From TV Require Import Layout.Types gen.Tables gen.Pinned Model.Monad Model.Constraints Model.Message Model.Pump Spec.Value Spec.Message
+  Model.Show Proofs.Account Proofs.Tiling Proofs.OpLemmas Proofs.Agree Proofs.Sim5 Properties.C20.
 Import ListNotations.
 Open Scope Z_scope.
 
@@ -29,3 +33,24 @@ Theorem C08_overrun_skips_to_the_declared_end_partial :
                       List.length (bytes_of tr) = Z.to_nat (mx - si_already ci).
 Proof. exact (fun p size s tr s' e H => bytes_parsed_outcome p size s tr s' (Fail e) H). Qed.
 Print Assumptions C08_overrun_skips_to_the_declared_end_partial.
+
+(** values only, every structure type (any descriptor [t], any tables [T], any input): if the input is structurally
+    consistent for [t], warn mode emits every field's event in wire order, exactly one warning - the value error
+    naming path, declared type and integer - directly after the event of each out-of-range leaf, nothing else, and
+    accepts *)
+Theorem C08_values_only_structure_types :
+  forall T t bs evs, spec_lenient T (RType t) bs = Some evs -> decode T false (RType t) bs = (evs, OAccepted).
+Proof. exact types_decode_lenient. Qed.
+Print Assumptions C08_values_only_structure_types.
+
+(** the same with the specification at the PINNED layout and the decoder at the tables regenerated from /repo *)
+Theorem C08_values_only_structure_types_pinned :
+  forall t bs evs, spec_lenient Pinned.T (RType t) bs = Some evs -> decode Tables.T false (RType t) bs = (evs, OAccepted).
+Proof. rewrite C20_pinned. exact (types_decode_lenient Pinned.T). Qed.
+Print Assumptions C08_values_only_structure_types_pinned.
+
+(** non-vacuity: a hash algorithm identifier out of range *)
+Example C08_example_bad_alg :
+  exists t evs, find_type Pinned.T "S" "TPMI_ALG_HASH" = Some t /\
+    spec_lenient Pinned.T (RType t) [18; 52] = Some evs /\ existsb is_warning (map fst evs) = true.
+Proof. eexists _, _. split; [vm_compute; reflexivity|]. split; vm_compute; reflexivity. Qed.
